@@ -2,7 +2,7 @@
 import math
 import cvlib
 from cvlib import fbits, tok_val, esc
-from cvscen import cfg, pos, tf, num
+from cvscen import cfg, pos, tf, num, inj_cv
 from cvcomp import COMPONENTS, EXTRA, NAT, WITH_TOTAL_FORCE, grp, vec
 
 RULE = ("variables made of one component with total-force support (distance, distanceZ fixed axis and ref2, distanceXY, angle, dihedral, "
@@ -168,6 +168,18 @@ def gen(rng, tier):
                 L.append(pos(a, *P[a])); L.append(tf(a, 0.0, 0.0, 0.0))
             L.append("m.step"); L.append("m.cv q ft"); lines.append(len(L))
         cases.append({"lines": L, "meta": {"kind": "jacobian_timing", "comps": info, "cfg": cl, "steps": lines}, "nontrivial": True})
+    # the engine's total force on the variable is exactly zero (late forces, subtractAppliedForce): the applied force of the previous step
+    # must still be excluded (listed finding: the code takes an exactly-zero total force for "not measured")
+    for k in range(1 if tier == "quick" else 4):
+        kf = rng.choice([2.0, 5.0]); c0 = rng.uniform(0.5, 1.5); w = 0.5
+        conf = inj_cv("x0", 0, -3.0, 3.0, w, extra="  subtractAppliedForce on\n  outputTotalForce on\n")
+        L = ["m.new 1", "M.noclock", "m.opt tf_same 0", "m.opt tfloop 0", "m.opt temp %s" % fbits(0.0), cfg(conf)]; cl = len(L)
+        L.append(cfg("harmonic {\n name h\n colvars x0\n centers %s\n forceConstant %s\n}\n" % (num(c0), num(kf))))
+        xs = []; marks = []
+        for t in range(4):
+            x = rng.uniform(-1, 0)
+            L += [pos(0, 0.0, 0.0, x), tf(0, 0.0, 0.0, 0.0), "m.step", "m.cv x0 ft fa"]; xs.append(x); marks.append(len(L))
+        cases.append({"lines": L, "meta": {"kind": "zero_total", "cfg": cl, "k": kf, "c": c0, "w": w, "xs": xs, "marks": marks, "comps": []}, "nontrivial": True})
     return cases
 
 
@@ -176,6 +188,9 @@ def distribution(cases):
     for c in cases:
         m = c["meta"]
         if "comps" not in m:
+            continue
+        if m.get("kind") == "zero_total":
+            d["zero_total"] = d.get("zero_total", 0) + 1
             continue
         for ci in m["comps"]:
             d["components"][ci["kind"]] = d["components"].get(ci["kind"], 0) + 1
@@ -200,6 +215,17 @@ def close(a, b, scale=1.0):
 
 def oracle(case, out):
     m = case["meta"]
+    if m.get("kind") == "zero_total":
+        for t in range(1, len(m["xs"])):
+            f_old = -m["k"] / (m["w"] ** 2) * (m["xs"][t - 1] - m["c"])
+            ft = val(out, m["marks"][t], "ft")
+            if ft is None:
+                return [(None, "no total force reported")]
+            if abs(ft - (0.0 - f_old)) > 1e-9 * max(1.0, abs(f_old)):
+                return [("subtractAppliedForce: an exactly zero total force is taken for 'not measured'",
+                         "step %d: the engine's total force on the variable is exactly 0 and Colvars applied %r at the previous step; with subtractAppliedForce the "
+                         "reported total force must be %r, it is %r" % (t, f_old, -f_old, ft))]
+        return []
     if "comps" not in m:
         return []
     if out.get((m["cfg"], "rc", 1)) != ["i0"]:
